@@ -136,6 +136,15 @@ fn main() {
             }
             writeln!(m, "{}", code).unwrap();
             let root = &c.root;
+            if prop == "C13" && c.variant == 0 {
+                // "the same public types": the exact-type assertions computed for the INLINED grammar must
+                // compile against the code generated for the include variant (rustc is the judge)
+                if let Some(inl) = corpus.iter().find(|o| o.group == c.group && o.variant == 1) {
+                    let mut gi = inl.grammar.clone();
+                    gi.rules.retain(|r| c.grammar.has(&r.name));
+                    writeln!(m, "{}", refpeg::shape::assertions(&gi, &c.derives)).unwrap();
+                }
+            }
             if prop == "C03" {
                 // rustc is the judge: exact-type assertions computed from the documented mapping
                 writeln!(m, "{}", refpeg::shape::assertions(&c.grammar, &c.derives)).unwrap();
